@@ -33,7 +33,11 @@ type MatCase struct {
 	Ops    []ops.Op    `json:"ops,omitempty"` // edit history applied to the (indexed) first tree before the matrix is computed
 }
 
-var historyKinds = []string{"reroot", "prune", "graft", "graft_tip_on_edge", "identical_one", "rename", "rename_auto", "shuffle_tips", "collapse_len", "resolve", "unroot", "rotate", "nni", "reinit", "scale_lengths", "scale_lengths", "clear_lengths", "sort"}
+var historyKinds = []string{"reroot", "prune", "graft", "graft_tip_on_edge", "identical_one", "rename", "rename_auto", "shuffle_tips", "collapse_len", "resolve", "unroot", "rotate", "nni", "reinit", "scale_lengths", "scale_lengths", "clear_lengths", "sort", "scale_supports", "scale_supports"}
+
+// supportKinds: edits after which the written text still shows every support (no renaming that
+// names inner nodes): histories drawn from them keep the support metric
+var supportKinds = []string{"reroot", "scale_supports", "scale_supports", "rotate", "sort", "reinit", "scale_lengths", "nni", "unroot", "collapse_len"}
 
 var metricOf = map[string][2]int{"brlen": {tree.DISTANCE_METRIC_BRLEN, ref.MetricLen}, "boot": {tree.DISTANCE_METRIC_BOOTS, ref.MetricSup}, "none": {tree.DISTANCE_METRIC_NONE, ref.MetricOne}}
 
@@ -58,13 +62,21 @@ func genMat(t *rapid.T, thorough bool) MatCase {
 	if rapid.IntRange(0, 3).Draw(t, "history") == 0 {
 		c.Trees = c.Trees[:1]
 		c.CLI = false
+		kinds := historyKinds
 		if c.Metric == "boot" {
 			// the oracle reads the edited tree's text, which cannot show a support next to an inner
-			// name (renaming operations name inner nodes)
-			c.Metric = "brlen"
+			// name (renaming operations name inner nodes): with the support metric the history is drawn
+			// from edits that leave inner nodes unnamed, on a tree without inner names - or the metric is changed
+			named := false
+			base.Walk(func(x, p *ref.Node) { named = named || (!x.IsTip() && x.Name != "") })
+			if named || rapid.Bool().Draw(t, "bootbrlen") {
+				c.Metric = "brlen"
+			} else {
+				kinds = supportKinds
+			}
 		}
 		for i, n := 0, rapid.IntRange(1, 4).Draw(t, "nops"); i < n; i++ {
-			c.Ops = append(c.Ops, ops.GenOp(t, historyKinds))
+			c.Ops = append(c.Ops, ops.GenOp(t, kinds))
 		}
 	}
 	return c
